@@ -105,7 +105,11 @@ func u32Addr(x uint32) netip.Addr {
 }
 
 func addrU32(a netip.Addr) uint32 {
-	b := a.Unmap().As4()
+	a = a.Unmap()
+	if !a.Is4() {
+		return 0 // the zero Addr (an unset cache field) or IPv6: never one of the harness's answers
+	}
+	b := a.As4()
 	return uint32(b[0])<<24 | uint32(b[1])<<16 | uint32(b[2])<<8 | uint32(b[3])
 }
 
